@@ -49,35 +49,52 @@ def _option_shard(args):
     return tot, problems
 
 
+def _grouped_shard(args):
+    """families of sub-pipelines differing in one respect (Merge routing, functions, arguments) under GroupBy: the NODE hash of a
+    grouped field contains the static hash of the sub-pipeline, so equal digests with different values are a C05 collision"""
+    seed, n = args
+    from .. import suite_ghash
+    tot, problems = 0, []
+    for i in range(n):
+        f = suite_ghash.run_family(seed * 50021 + i)
+        tot += f['variants']
+        problems += [p for p in f['problems'] if p['msg'].startswith('under GroupBy')]
+    return tot, problems
+
+
 def run(tier, seed, res, lean):
     shards = 16 if tier == 'quick' else 64
     per = 90 if tier == 'quick' else 450
     outs = pmap(_shard, [(seed * 1000003 + 104729 + i, per) for i in range(shards)])
-    stats = merge_stats([o[0] for o in outs])
-    bad = [b for o in outs for b in o[1]]
-    coll = [c for o in outs for c in o[3]]
-    pyeq = [c for o in outs for c in o[4]]
-    for c in [c for c in coll if not c.get('silent_none')][:10]:
-        res.violations.append(Violation(
-            'c05-collision', f'equal NodeHash for different computations: {c["value_a"][:120]} vs {c["value_b"][:120]}',
-            {'suite': 'S-HASH', **c}))
-    for c in [c for c in coll if c.get('silent_none')][:3]:
-        res.violations.append(Violation(
-            'c05-silent-none', f'a Silent position hashes like an argument whose value is None: {c["value_a"][:80]} vs {c["value_b"][:80]}',
-            {'suite': 'S-HASH', 'signature': {'kind': 'silent_vs_none'}, **c}))
-    for c in pyeq[:3]:
-        res.violations.append(Violation(
-            'c05-pyeq', f'NodeHash equality is Python ==: {c["value_a"][:80]} vs {c["value_b"][:80]}',
-            {'suite': 'S-HASH', 'signature': {'kind': 'pyeq_distinct_types'}, **c}))
-    if bad and not coll:
-        res.violations.append(Violation(
-            'c05-correspondence', 'NodeHash.value of the real code and hden of the model differ; theorems C05.* no longer tied to the code',
-            {'suite': 'S-VM', 'theorems': list(lean['theorems']), **bad[0]}, found_input=False))
-    if stats['decode_vs_real_mismatch'] and not coll and not bad:
-        res.violations.append(Violation(
-            'c05-decode', 'on a plain graph the value returned by the real code is not decode(node hash): the theorem '
-            'CM.C05.hash_determines_value no longer describes the code', {'suite': 'S-VM', 'theorems': list(lean['theorems']),
-                                                                            'cases': stats['decode_bad'][:2]}, found_input=False))
+    def engine_part():
+        stats = merge_stats([o[0] for o in outs])
+        bad = [b for o in outs for b in o[1]]
+        coll = [c for o in outs for c in o[3]]
+        pyeq = [c for o in outs for c in o[4]]
+        for c in [c for c in coll if not c.get('silent_none')][:10]:
+            res.violations.append(Violation(
+                'c05-collision', f'equal NodeHash for different computations: {c["value_a"][:120]} vs {c["value_b"][:120]}',
+                {'suite': 'S-HASH', **c}))
+        for c in [c for c in coll if c.get('silent_none')][:3]:
+            res.violations.append(Violation(
+                'c05-silent-none', f'a Silent position hashes like an argument whose value is None: {c["value_a"][:80]} vs {c["value_b"][:80]}',
+                {'suite': 'S-HASH', 'signature': {'kind': 'silent_vs_none'}, **c}))
+        for c in pyeq[:3]:
+            res.violations.append(Violation(
+                'c05-pyeq', f'NodeHash equality is Python ==: {c["value_a"][:80]} vs {c["value_b"][:80]}',
+                {'suite': 'S-HASH', 'signature': {'kind': 'pyeq_distinct_types'}, **c}))
+        if bad and not coll:
+            res.violations.append(Violation(
+                'c05-correspondence', 'NodeHash.value of the real code and hden of the model differ; theorems C05.* no longer tied to the code',
+                {'suite': 'S-VM', 'theorems': list(lean['theorems']), **bad[0]}, found_input=False))
+        if stats['decode_vs_real_mismatch'] and not coll and not bad:
+            res.violations.append(Violation(
+                'c05-decode', 'on a plain graph the value returned by the real code is not decode(node hash): the theorem '
+                'CM.C05.hash_determines_value no longer describes the code', {'suite': 'S-VM', 'theorems': list(lean['theorems']),
+                                                                                'cases': stats['decode_bad'][:2]}, found_input=False))
+        return stats, bad
+    from ..par import soft
+    stats, bad = soft('S-HASH/S-VM (engine level)', engine_part) or ({}, [])
     # concurrent evaluations sharing edge objects: the node hash a call computes while other calls run (deterministic
     # scheduler of S-SCHED, keys with gated equality) must be the hash of a sequential execution
     from .. import suite_sched
@@ -98,20 +115,26 @@ def run(tier, seed, res, lean):
     for p in [p for o in of for p in o[1]][:3]:
         res.violations.append(Violation('c05-option-collision', p['msg'][:400], {'suite': 'S-GHASH/options', **p}))
     res.coverage['option_family_variants'] = sum(o[0] for o in of)
-    fam = {}
-    for o in outs:
-        for k, v in o[6].items():
-            fam[k] = fam.get(k, 0) + v
-    res.coverage.update({
-        'evaluations': stats['calls'] + sum(o[2] for o in outs), 'distinct_nontrivial': sum(o[5] for o in outs),
-        'rule': RULE, 'programs': stats['cases'] + sum(fam.values()), 'disagreements_checked': len(bad),
-        'samples': [{'family_variants': fam}],
-        'distribution': {'kinds': stats['kinds'], 'variants': fam},
-        'theorem_instances': {'what': 'call steps on plain graphs (Graph.plainB, proved sound) where the value returned by the REAL code was '
-                              'compared with decode(hden) computed by the driver (CM.C05.hash_determines_value)',
-                              'checked': stats['decode_instances'], 'mismatches': stats['decode_vs_real_mismatch']},
-    })
+    gf = pmap(_grouped_shard, [(seed * 1931 + i + 7, 6 if tier == 'quick' else 40) for i in range(shards)])
+    for p in [p for o in gf for p in o[1]][:3]:
+        res.violations.append(Violation('c05-grouped-collision', p['msg'][:400], {'suite': 'S-GHASH/grouped', **p}))
+    res.coverage['grouped_family_variants'] = sum(o[0] for o in gf)
+    def summary():
+        fam = {}
+        for o in outs:
+            for k, v in o[6].items():
+                fam[k] = fam.get(k, 0) + v
+        res.coverage.update({
+            'evaluations': stats['calls'] + sum(o[2] for o in outs), 'distinct_nontrivial': sum(o[5] for o in outs),
+            'rule': RULE, 'programs': stats['cases'] + sum(fam.values()), 'disagreements_checked': len(bad),
+            'samples': [{'family_variants': fam}],
+            'distribution': {'kinds': stats['kinds'], 'variants': fam},
+            'theorem_instances': {'what': 'call steps on plain graphs (Graph.plainB, proved sound) where the value returned by the REAL code was '
+                                  'compared with decode(hden) computed by the driver (CM.C05.hash_determines_value)',
+                                  'checked': stats['decode_instances'], 'mismatches': stats['decode_vs_real_mismatch']},
+        })
 
+    soft('coverage summary', summary)
 
 def replay(obj, kind):
     if 'a' in obj:
